@@ -84,6 +84,8 @@ void checkContainment(const std::vector<Invocation>& invs,
       } else if (e.kind == "setxattr") {
         if (!cur || cur->inc < 0)
           continue;
+        if (e.res != 0)
+          continue; // refused by the kernel (e.g. the path is gone): harmless
         if (e.inc != cur->inc) {
           Cg* oc = W.byInc(e.inc);
           violate(prefix + ".xattr-on-victim-only",
